@@ -559,7 +559,7 @@ func (c *constraint) matchesCaret(version *Version) bool {
 			version.patch == constraintVersion.patch {
 			// Check if this is the special case: ^1.0.0 should include 1.0b1
 			// but ^1.2.3 should NOT include 1.2.3-alpha
-			versionStr := version.String()
+			versionStr := strings.TrimSpace(version.String())
 			constraintStr := constraintVersion.String()
 
 			// Special case: ^1.0.0 includes 1.0b1 (non-hyphenated prerelease of x.0.0)
